@@ -2291,3 +2291,19 @@ m("C13", "name-block-inside-on-error", ZP,
             ON_ERROR,
             NAME
         )''')
+
+m("C11", "unknown-expression-type-bare-lookuperror", "tales.py",
+  '''            raise UnknownExpressionType(
+                "Unknown expression type: %s." % str(exc), token
+            )''',
+  '''            raise LookupError(
+                "Unknown expression type: %s." % str(exc)
+            )''')
+m("C11", "undefined-prefix-bare-keyerror", "parser.py",
+  '''                    raise UndefinedNamespacePrefix(
+                        "Undefined namespace prefix: %s." % prefix, prefix)''',
+  '''                    raise KeyError(
+                        "Undefined namespace prefix: %s." % prefix)''')
+m("C11", "unknown-expression-type-plain-token", "tales.py",
+  "            token = expression[m.start(1):m.end(1)]\n",
+  "            token = prefix\n")
